@@ -13,7 +13,7 @@ def contracts():
         // each file type lives in its own directory under its own name: the key file follows the key settings, the certificate file the
         // certificate settings, the account file the account name
         r matches Ok(t) ==> t.2@ == file_path_spec(*fm, file_type) && t.0@ == file_dir_spec(*fm, file_type)
-                && t.1@ == file_name_spec(*fm, file_type), //@C02.each_file_type_has_its_own_path,C03.each_file_type_has_its_own_path,C13.each_file_type_has_its_own_path
+                && t.1@ == file_name_spec(*fm, file_type), //@C02.each_file_type_has_its_own_path,C03.each_file_type_has_its_own_path,C13.each_file_type_has_its_own_path,C01.the_key_file_is_beside_the_certificate_file
         (r is Ok) == path_ok(*fm, file_type),
 """, rewrites=[("T-FMT", r"format!\(\s*\"\{account\}\.\{file_type\}\.\{ext\}\",\s*account = (?P<a>[^,]+),\s*file_type = (?P<b>\w+),\s*ext = (?P<c>\w+),?\s*\)",
                 lambda m: f"dot3(&{m.group('a').strip()}, &{m.group('b')}, &{m.group('c')})")],
@@ -92,7 +92,7 @@ def contracts():
     ensures *final(w) == *old(w),
         // exactly: every listed file has a path and is there (a missing one means "request now", all present means "look at the certificate")
         r == (forall|i: int| 0 <= i < file_types@.len() ==> path_ok(*fm, #[trigger] file_types@[i])
-                && old(w).fs.files.contains_key(file_path_spec(*fm, file_types@[i]))), //@C06.files_exist_exactly
+                && old(w).fs.files.contains_key(file_path_spec(*fm, file_types@[i]))), //@C06.files_exist_exactly,C07.files_exist_exactly,C11.files_exist_exactly
 """, loops={1: """
     invariant *w == *old(w),
         forall|i: int| 0 <= i < it.index@ ==> path_ok(*fm, #[trigger] file_types@[i]) && old(w).fs.files.contains_key(file_path_spec(*fm, file_types@[i])),
@@ -101,7 +101,7 @@ def contracts():
     c["certificate_files_exists"] = FnSpec(ret="r", ghost=True, sig="""
     ensures *final(w) == *old(w),
         r == (path_ok(*fm, FileType::PrivateKey) && old(w).fs.files.contains_key(file_path_spec(*fm, FileType::PrivateKey))
-            && path_ok(*fm, FileType::Certificate) && old(w).fs.files.contains_key(file_path_spec(*fm, FileType::Certificate))), //@C06.files_exist_exactly
+            && path_ok(*fm, FileType::Certificate) && old(w).fs.files.contains_key(file_path_spec(*fm, FileType::Certificate))), //@C06.files_exist_exactly,C07.files_exist_exactly,C11.files_exist_exactly
 """, at=[("before_stmt", "check_files(", 1, "proof { assert(file_types@[0] is PrivateKey && file_types@[1] is Certificate && file_types@.len() == 2); }")])
     c["account_files_exists"] = FnSpec(ret="r", ghost=True, sig="""
     ensures *final(w) == *old(w),
